@@ -259,6 +259,25 @@ namespace occa {
           }
           return false;
         }
+        // The update has to move the iterator towards the bound:
+        //   it < bound, it <= bound, bound > it, bound >= it  -> ++, +=
+        //   it > bound, it >= bound, bound < it, bound <= it  -> --, -=
+        // Going the other way the loop is empty or runs away, while the
+        // iteration count (bound - init or init - bound) would be positive
+        const bool checkIsLessThan = (
+          checkOp->opType() & (operatorType::lessThan |
+                               operatorType::lessThanEq)
+        );
+        const bool iteratorBelowBound = (checkIsLessThan == checkValueOnRight);
+        if (positiveUpdate != iteratorBelowBound) {
+          if (printErrors) {
+            updateOp->startNode()->printError(sourceStr() + "The update moves ["
+                                              + iterator->name()
+                                              + "] away from its bound,"
+                                              " the loop range is empty or infinite");
+          }
+          return false;
+        }
         return true;
       }
 
